@@ -30,40 +30,40 @@ theorem slice_ok (b : Bytes) (i j : Int) (k : Bytes → Res) (h : 0 ≤ i ∧ i 
 @[simp] theorem ok_out (f r : Bytes) : (Res.ok f r).out = .ok f r := rfl
 @[simp] theorem err_out (e : RErr) : (Res.err e).out = .err e := rfl
 
-theorem readLen_put (limit n : Nat) (rest : Bytes) (k : Nat → Bytes → Res)
-    (h0 : 0 < n) (hl : n ≤ limit) (h32 : n < 2 ^ 32) :
-    readLen limit (putU32 n ++ rest) k = Res.alloc 4 (k n rest) := by
+theorem readLen_put (envelope n : Nat) (rest : Bytes) (k : Nat → Bytes → Res)
+    (h0 : 0 < n) (hl : n ≤ 16777216 + envelope) (h32 : n < 2 ^ 32) :
+    readLen Cfg.spec envelope (putU32 n ++ rest) k = Res.alloc 4 (k n rest) := by
   unfold readLen
   rw [readN_append _ _ 4 _ (putU32_length n)]
   have : fromLE (putU32 n) = n := fromLE_leN 4 n (by simpa using h32)
   simp only [this]
-  have hc : ¬ (n = 0 ∨ n > limit) := by omega
-  simp only [hc, if_false]
+  have hc : Cfg.spec.lenRejects n envelope = false := by simp [Cfg.spec]; omega
+  simp only [hc, Bool.false_eq_true, if_false]
 
 theorem checkProto_ok (a : List Nat) (p rest : Bytes) (h : p.length ≠ 4) :
-    checkProto ⟨a, .ok p rest⟩ = ⟨a, .ok p rest⟩ := by
-  simp [checkProto, h]
+    checkProto Cfg.spec ⟨a, .ok p rest⟩ = ⟨a, .ok p rest⟩ := by
+  simp [checkProto, Cfg.spec, h]
 
 theorem checkProto_out_ok (r : Res) (p rest : Bytes) (h : p.length ≠ 4) (hr : r.out = .ok p rest) :
-    (checkProto r).out = .ok p rest := by
+    (checkProto Cfg.spec r).out = .ok p rest := by
   cases r with
   | mk a o =>
     simp only at hr; subst hr
     rw [checkProto_ok a p rest h]
 
 theorem checkProto_out_code (r : Res) (p rest : Bytes) (h : p.length = 4) (hr : r.out = .ok p rest) :
-    (checkProto r).out = .err (.proto (negInt32 (fromLE p))) := by
+    (checkProto Cfg.spec r).out = .err (.proto (negInt32 (fromLE p))) := by
   cases r with
   | mk a o =>
     simp only at hr; subst hr
-    simp [checkProto, h]
+    simp [checkProto, Cfg.spec, h]
 
 /-! ### Per-protocol round trip of the unexported readers -/
 
 theorem readIntermediate_enc (p rest : Bytes) (h0 : 0 < p.length) (hmax : p.length ≤ 16777216) :
     (readIntermediate Cfg.spec false (putU32 p.length ++ p ++ rest)).out = .ok p rest := by
   unfold readIntermediate
-  rw [List.append_assoc, readLen_put _ _ _ _ h0 (by simp [Cfg.spec]; omega) (by omega)]
+  rw [List.append_assoc, readLen_put _ _ _ _ h0 (by simp; omega) (by omega)]
   simp only [alloc_out, make_nat]
   rw [readN_append p rest _ _ rfl]
   simp
@@ -80,7 +80,7 @@ theorem readPadded_enc (p pad rest : Bytes) (h0 : 0 < p.length) (hmax : p.length
       readLen_put _ _ _ _ (by omega) (by simp [Cfg.spec]; omega) (by omega)]
     simp only [make_nat]
     rw [← List.append_assoc, readN_append (p ++ pad) rest _ _ (by simp)]
-    simp only [if_true]
+    simp only [if_true, spec_padStrip]
     rw [slice_ok _ _ _ _ (by simp; omega)]
     have hk : ((↑(p.length + pad.length) : Int) - ↑((p.length + pad.length) % 4)).toNat - (0 : Int).toNat
         = p.length := by omega
@@ -88,7 +88,7 @@ theorem readPadded_enc (p pad rest : Bytes) (h0 : 0 < p.length) (hmax : p.length
     simp
   unfold readPadded
   rw [hri]
-  simp only [Res.alloc, Res.ok]
+  simp only [Res.alloc, Res.ok, spec_padStrip]
   rw [slice_ok _ _ _ _ (by omega)]
   have hk : ((p.length : Int) - (p.length : Int) % 4).toNat = p.length := by omega
   simp [hk]
@@ -98,41 +98,37 @@ theorem fromLE_single (b : UInt8) : fromLE [b] = b.toNat := by simp [fromLE]
 theorem readAbridged_enc (p rest : Bytes) (hmax : p.length ≤ 16777216) (h4 : p.length % 4 = 0) :
     (readAbridged Cfg.spec (abridgedHead Cfg.spec p.length ++ p ++ rest)).out = .ok p rest := by
   have hcont : ∀ s2 : Bytes, s2 = p ++ rest →
-      (if Cfg.spec.abrGuard = true ∧ p.length / 4 * 4 > Cfg.spec.maxMsg then Res.err (.badLen (p.length / 4 * 4))
-        else Res.make ((p.length / 4 : Nat) * 4 : Int) fun m => Res.alloc m <| Res.readN m s2
+      (if Cfg.spec.abrRejects (p.length / 4) = true then Res.err (.badLen (Cfg.spec.abrBytes (p.length / 4)).toNat)
+        else Res.make (Cfg.spec.abrBytes (p.length / 4)) fun m => Res.alloc m <| Res.readN m s2
           fun payload s3 => Res.ok payload s3).out = .ok p rest := by
     intro s2 hs2
-    have hw : p.length / 4 * 4 = p.length := by omega
-    have hg : ¬ (Cfg.spec.abrGuard = true ∧ p.length / 4 * 4 > Cfg.spec.maxMsg) := by
-      simp [Cfg.spec]; omega
-    simp only [hg, if_false]
-    have hi : ((p.length / 4 : Nat) * 4 : Int) = ((p.length : Nat) : Int) := by omega
+    have hg : Cfg.spec.abrRejects (p.length / 4) = false := by simp [spec_abrRejects]; omega
+    simp only [hg, Bool.false_eq_true, if_false, spec_abrBytes]
+    have hi : ((p.length / 4 : Nat) : Int) * 4 = ((p.length : Nat) : Int) := by omega
     rw [hi, make_nat, hs2, alloc_out, readN_append p rest _ _ rfl]
     rfl
   unfold readAbridged abridgedHead
+  simp only [spec_abrWords, spec_abrShort, spec_abrMark, spec_abrLong]
   by_cases hs : p.length / 4 < 127
-  · have hs' : p.length / 4 < Cfg.spec.abrThrW := hs
-    simp only [hs', if_true, alloc_out]
+  · simp only [hs, decide_true, if_true, alloc_out]
     rw [List.append_assoc, readN_append [UInt8.ofNat (p.length / 4)] (p ++ rest) 1 _ rfl]
     have hb : fromLE [UInt8.ofNat (p.length / 4)] = p.length / 4 := by
       rw [fromLE_single]; simp [UInt8.toNat_ofNat']; omega
     simp only [hb]
-    have hlt : ¬ (p.length / 4 ≥ Cfg.spec.abrThrR) := by simp [Cfg.spec]; omega
-    simp only [hlt, if_false]
+    have hlt : ¬ (p.length / 4 ≥ 127) := by omega
+    simp only [hlt, decide_false, Bool.false_eq_true, if_false]
     exact hcont _ rfl
-  · have hs' : ¬ p.length / 4 < Cfg.spec.abrThrW := hs
-    simp only [hs', if_false, alloc_out]
+  · simp only [hs, decide_false, Bool.false_eq_true, if_false, alloc_out]
     rw [List.append_assoc]
-    show (Res.readN 1 ([UInt8.ofNat Cfg.spec.abrMark] ++ (leN 3 (p.length / 4) ++ (p ++ rest))) _).out = _
-    rw [readN_append [UInt8.ofNat Cfg.spec.abrMark] _ 1 _ rfl]
-    have hb : fromLE [UInt8.ofNat Cfg.spec.abrMark] = 127 := by decide
+    show (Res.readN 1 ([UInt8.ofNat 127] ++ (leN 3 (p.length / 4) ++ (p ++ rest))) _).out = _
+    rw [readN_append [UInt8.ofNat 127] _ 1 _ rfl]
+    have hb : fromLE [UInt8.ofNat 127] = 127 := by decide
     simp only [hb]
-    have hge : (127 ≥ Cfg.spec.abrThrR) := by decide
-    simp only [hge, if_true]
+    have hge : (127 ≥ 127) := by decide
+    simp only [hge, decide_true, if_true]
     rw [readN_append (leN 3 (p.length / 4)) (p ++ rest) 3 _ (leN_length _ _)]
     rw [fromLE_leN 3 (p.length / 4) (by omega)]
     exact hcont _ rfl
-
 
 theorem readFull_enc (crc : Bytes → Nat) (seq : Int) (p rest : Bytes)
     (hmax : p.length ≤ 16777216) (hcrc : ∀ x, crc x < 2 ^ 32) (hseq : -2 ^ 31 ≤ seq ∧ seq < 2 ^ 31) :
@@ -142,20 +138,27 @@ theorem readFull_enc (crc : Bytes → Nat) (seq : Int) (p rest : Bytes)
   generalize hc : crc (putU32 (p.length + 12) ++ putU32 (ofInt32 seq) ++ p) = c
   have hc32 : c < 2 ^ 32 := by rw [← hc]; exact hcrc _
   unfold readFull
+  simp only [spec_fullEnvelope, spec_fullRejects, spec_fullExpand, spec_fullInnerLo, spec_fullInnerHi,
+    spec_fullPayload, spec_fullCrcLo, spec_fullCrcHi, spec_fullCopyLo, spec_fullCopyHi]
   rw [show putU32 (p.length + 12) ++ putU32 (ofInt32 seq) ++ p ++ putU32 c ++ rest
         = putU32 (p.length + 12) ++ ((putU32 (ofInt32 seq) ++ p ++ putU32 c) ++ rest) by simp,
-    readLen_put _ _ _ _ (by omega) (by simp [Cfg.spec]; omega) (by omega)]
-  have hg : ¬ (Cfg.spec.fullGuard = true ∧ p.length + 12 < Cfg.spec.fullMin) := by simp [Cfg.spec]
-  simp only [hg, if_false, alloc_out]
+    readLen_put _ _ _ _ (by omega) (by omega) (by omega)]
+  have hg : ¬ (p.length + 12 < 12) := by omega
+  simp only [hg, decide_false, Bool.false_eq_true, if_false, alloc_out]
   rw [make_int _ (by omega)]
   have he : ((↑(p.length + 12) : Int) - 4).toNat = p.length + 8 := by omega
   simp only [he, alloc_out]
-  rw [slice_ok _ _ _ _ (by simp only [zeros_length]; omega)]
+  -- the buffer after PutInt and Expand
+  generalize hb0 : leN 4 (p.length + 12) ++ leN 4 (p.length + 12) ++ zeros (p.length + 8) = buf0
+  have hb0l : buf0.length = p.length + 16 := by rw [← hb0]; simp only [List.length_append, leN_length, zeros_length]; omega
+  have hb0t : buf0.take 4 = putU32 (p.length + 12) := by
+    rw [← hb0, List.append_assoc]; exact take_append_len _ _ 4 (leN_length _ _)
+  rw [slice_ok _ _ _ _ (by rw [hb0l]; omega)]
   have hil : (putU32 (ofInt32 seq) ++ p ++ putU32 c).length = p.length + 8 := by
     simp [putU32_length]; omega
   have hvl : (List.take ((↑(p.length + 12) : Int).toNat - (4 : Int).toNat)
-      (List.drop (4 : Int).toNat (zeros (8 + (p.length + 8))))).length = p.length + 8 := by
-    simp only [List.length_take, List.length_drop, zeros_length]; omega
+      (List.drop (4 : Int).toNat buf0)).length = p.length + 8 := by
+    simp only [List.length_take, List.length_drop, hb0l]; omega
   rw [hvl, readN_append _ rest _ _ hil]
   simp only [hil]
   have h1 : ¬ (p.length + 8 < 4) := by omega
@@ -179,16 +182,18 @@ theorem readFull_enc (crc : Bytes → Nat) (seq : Int) (p rest : Bytes)
   rw [htail]
   have h2 : ¬ ((putU32 c).length < 4) := by simp [putU32_length]
   simp only [h2, if_false]
-  -- the CRC input is the frame without its last word
-  have hbuf : leN 4 (p.length + 12) ++ (putU32 (ofInt32 seq) ++ p ++ putU32 c) ++ zeros (8 + (p.length + 8) - 4 - (p.length + 8))
-      = (putU32 (p.length + 12) ++ putU32 (ofInt32 seq) ++ p) ++ (putU32 c ++ zeros 4) := by
-    have : 8 + (p.length + 8) - 4 - (p.length + 8) = 4 := by omega
-    rw [this]; simp [putU32]
+  -- the buffer with the frame read into b.Buf[4:n]
+  generalize hz : List.drop (↑(p.length + 12) : Int).toNat buf0 = Z
+  have hzl : Z.length = 4 := by rw [← hz]; simp only [List.length_drop, hb0l]; omega
+  have h4 : (4 : Int).toNat = 4 := rfl
+  rw [h4, hb0t]
+  have hbuf : putU32 (p.length + 12) ++ (putU32 (ofInt32 seq) ++ p ++ putU32 c) ++ Z
+      = (putU32 (p.length + 12) ++ putU32 (ofInt32 seq) ++ p) ++ (putU32 c ++ Z) := by simp
   have hbl : (putU32 (p.length + 12) ++ putU32 (ofInt32 seq) ++ p).length = p.length + 8 := by
     simp [putU32_length]; omega
-  rw [hbuf, slice_ok _ _ _ _ (by simp [putU32_length]; omega)]
+  rw [hbuf, slice_ok _ _ _ _ (by simp [putU32_length, hzl]; omega)]
   have hcin : List.take (((↑(p.length + 12) : Int) - 4).toNat - (0 : Int).toNat)
-      (List.drop (0 : Int).toNat (putU32 (p.length + 12) ++ putU32 (ofInt32 seq) ++ p ++ (putU32 c ++ zeros 4)))
+      (List.drop (0 : Int).toNat (putU32 (p.length + 12) ++ putU32 (ofInt32 seq) ++ p ++ (putU32 c ++ Z)))
       = putU32 (p.length + 12) ++ putU32 (ofInt32 seq) ++ p := by
     have e1 : ((↑(p.length + 12) : Int) - 4).toNat - (0 : Int).toNat = p.length + 8 := by omega
     rw [e1]
@@ -201,15 +206,15 @@ theorem readFull_enc (crc : Bytes → Nat) (seq : Int) (p rest : Bytes)
       rw [List.take_of_length_le]; simp [putU32_length]
     rw [this]; exact fromLE_leN 4 c (by simpa using hc32)
   simp only [hfc, not_true_eq_false, if_false]
-  rw [slice_ok _ _ _ _ (by simp [putU32_length]; omega)]
+  rw [slice_ok _ _ _ _ (by simp [putU32_length, hzl]; omega)]
   have hpay : List.take (((↑(p.length + 12) : Int) - 4).toNat - (8 : Int).toNat)
-      (List.drop (8 : Int).toNat (putU32 (p.length + 12) ++ putU32 (ofInt32 seq) ++ p ++ (putU32 c ++ zeros 4)))
+      (List.drop (8 : Int).toNat (putU32 (p.length + 12) ++ putU32 (ofInt32 seq) ++ p ++ (putU32 c ++ Z)))
       = p := by
     have e1 : ((↑(p.length + 12) : Int) - 4).toNat - (8 : Int).toNat = p.length := by omega
     rw [e1]
     show List.take p.length (List.drop 8 _) = p
-    rw [show putU32 (p.length + 12) ++ putU32 (ofInt32 seq) ++ p ++ (putU32 c ++ zeros 4)
-          = (putU32 (p.length + 12) ++ putU32 (ofInt32 seq)) ++ (p ++ (putU32 c ++ zeros 4)) by simp,
+    rw [show putU32 (p.length + 12) ++ putU32 (ofInt32 seq) ++ p ++ (putU32 c ++ Z)
+          = (putU32 (p.length + 12) ++ putU32 (ofInt32 seq)) ++ (p ++ (putU32 c ++ Z)) by simp,
       drop_append_len _ _ 8 (by simp [putU32_length])]
     simp
   rw [hpay, slice_ok _ _ _ _ (by omega)]
@@ -217,10 +222,9 @@ theorem readFull_enc (crc : Bytes → Nat) (seq : Int) (p rest : Bytes)
   rw [e2]
   simp
 
-
 /-! ### All protocols -/
 
-theorem padLenB_le (b : UInt8) : padLenB b ≤ 3 := by unfold padLenB; omega
+theorem padLenB_le (b : UInt8) : padLenB Cfg.spec b ≤ 3 := by unfold padLenB; rw [spec_padOf]; omega
 
 /-- The unexported reader of each protocol inverts the writer, whatever follows on the stream. -/
 theorem readRaw_encRaw (crc : Bytes → Nat) (k : Kind) (seq : Int) (rnd p rest : Bytes)
@@ -236,15 +240,15 @@ theorem readRaw_encRaw (crc : Bytes → Nat) (k : Kind) (seq : Int) (rnd p rest 
     exact readIntermediate_enc p rest h0 hmax
   | padded =>
     simp only [readRaw, encRaw, encHead, encTail]
-    have hl : (rnd.take (padLenB (lastByte p))).length = padLenB (lastByte p) := by
+    have hl : (rnd.take (padLenB Cfg.spec (lastByte p))).length = padLenB Cfg.spec (lastByte p) := by
       have := padLenB_le (lastByte p)
       simp only [List.length_take]; omega
-    have := readPadded_enc p (rnd.take (padLenB (lastByte p))) rest h0 hmax (h4 (by decide))
+    have := readPadded_enc p (rnd.take (padLenB Cfg.spec (lastByte p))) rest h0 hmax (h4 (by decide))
       (by rw [hl]; exact padLenB_le _)
     rw [hl] at this
     exact this
   | full =>
-    simp only [readRaw, encRaw, encHead, encTail]
+    simp only [readRaw, encRaw, encHead, encTail, spec_fullWire]
     exact readFull_enc crc seq p rest hmax hcrc hseq
 
 /-- `Codec.Read ∘ Codec.Write` on one frame that is not four bytes long. -/
@@ -353,15 +357,13 @@ theorem detect_full_of_aligned (n : Nat) (s : Bytes) (h4 : n % 4 = 0) :
 
 /-! ### The pinned tree: frames the writer accepts but its own reader rejects -/
 
-theorem readLen_put_over (limit n : Nat) (rest : Bytes) (k : Nat → Bytes → Res)
-    (h : n > limit) (h32 : n < 2 ^ 32) :
-    readLen limit (putU32 n ++ rest) k = Res.alloc 4 (Res.err (.badLen n)) := by
+theorem readLen_put_over (cfg : Cfg) (envelope n : Nat) (rest : Bytes) (k : Nat → Bytes → Res)
+    (h : cfg.lenRejects n envelope = true) (h32 : n < 2 ^ 32) :
+    readLen cfg envelope (putU32 n ++ rest) k = Res.alloc 4 (Res.err (.badLen n)) := by
   unfold readLen
   rw [readN_append _ _ 4 _ (putU32_length n)]
   have : fromLE (putU32 n) = n := fromLE_leN 4 n (by simpa using h32)
-  simp only [this]
-  have hc : (n = 0 ∨ n > limit) := Or.inr h
-  simp only [hc, if_true]
+  simp only [this, h, if_true]
 
 /-- Pinned tree, full protocol: any payload longer than `2^24 - 12` (the writer accepts up to
 `2^24`) is written with a length word the reader rejects. -/
@@ -369,25 +371,35 @@ theorem pinned_full_rejects (crc : Bytes → Nat) (seq : Int) (rnd p rest : Byte
     (hlo : 16777216 - 12 < p.length) (hhi : p.length ≤ 16777216) :
     (read Cfg.pinned crc .full seq (encRaw Cfg.pinned crc .full seq rnd p ++ rest)).out
       = .err (.badLen (p.length + 12)) := by
-  simp only [read, readRaw, encRaw, encHead, encTail, readFull]
+  have hw : Cfg.pinned.fullWire p.length = p.length + 12 := rfl
+  simp only [read, readRaw, encRaw, encHead, encTail, readFull, hw]
   rw [show putU32 (p.length + 12) ++ putU32 (ofInt32 seq) ++ p
         ++ putU32 (crc (putU32 (p.length + 12) ++ putU32 (ofInt32 seq) ++ p)) ++ rest
       = putU32 (p.length + 12) ++ (putU32 (ofInt32 seq) ++ p
         ++ putU32 (crc (putU32 (p.length + 12) ++ putU32 (ofInt32 seq) ++ p)) ++ rest) by simp,
-    readLen_put_over _ _ _ _ (by simp [Cfg.pinned, Cfg.spec]; omega) (by omega)]
+    readLen_put_over _ _ _ _ _ (by simp [Cfg.pinned, Cfg.spec]; omega) (by omega)]
   rfl
 
 /-- Pinned tree, padded intermediate: a payload of exactly `2^24` bytes whose last byte is not a
 multiple of four gets 1–3 bytes of padding and a length word the reader rejects. -/
 theorem pinned_padded_rejects (crc : Bytes → Nat) (seq : Int) (rnd p rest : Bytes)
-    (hlen : p.length = 16777216) (hpad : 0 < padLen p) :
+    (hlen : p.length = 16777216) (hpad : 0 < padLen Cfg.pinned p) :
     (read Cfg.pinned crc .padded seq (encRaw Cfg.pinned crc .padded seq rnd p ++ rest)).out
-      = .err (.badLen (p.length + padLen p)) := by
-  have hp3 := padLenB_le (lastByte p)
-  simp only [read, readRaw, encRaw, encHead, encTail, readPadded, readIntermediate, padLen] at *
-  rw [show putU32 (p.length + padLenB (lastByte p)) ++ p ++ List.take (padLenB (lastByte p)) rnd ++ rest
-      = putU32 (p.length + padLenB (lastByte p)) ++ (p ++ List.take (padLenB (lastByte p)) rnd ++ rest) by simp,
-    readLen_put_over _ _ _ _ (by simp [Cfg.pinned, Cfg.spec]; omega) (by omega)]
+      = .err (.badLen (p.length + padLen Cfg.pinned p)) := by
+  have hp3 : padLenB Cfg.pinned (lastByte p) ≤ 3 := by
+    show (lastByte p).toNat % 4 ≤ 3
+    omega
+  have hpad' : 0 < padLenB Cfg.pinned (lastByte p) := hpad
+  have hrej : Cfg.pinned.lenRejects (p.length + padLenB Cfg.pinned (lastByte p)) Cfg.pinned.padEnvelope = true := by
+    have hpe : Cfg.pinned.padEnvelope = 0 := rfl
+    rw [hpe]
+    show decide (p.length + padLenB Cfg.pinned (lastByte p) = 0 ∨ p.length + padLenB Cfg.pinned (lastByte p) > 16777216 + 0) = true
+    rw [decide_eq_true_eq]
+    right; omega
+  simp only [read, readRaw, encRaw, encHead, encTail, readPadded, readIntermediate, padLen, if_true]
+  rw [show putU32 (p.length + padLenB Cfg.pinned (lastByte p)) ++ p ++ List.take (padLenB Cfg.pinned (lastByte p)) rnd ++ rest
+      = putU32 (p.length + padLenB Cfg.pinned (lastByte p)) ++ (p ++ List.take (padLenB Cfg.pinned (lastByte p)) rnd ++ rest) by simp,
+    readLen_put_over _ _ _ _ _ hrej (by omega)]
   rfl
 
 end TdModel.Codec
